@@ -440,6 +440,11 @@ def _check_binary(prog, rep, fi, d, arm, env):
                 rep.ob("R04.1", construct, ok, "deg(a +- b) <= max(deg a, deg b)" if ok else f"answers {form}; the degree of a sum can be as large as max(deg a, deg b)", loc=loc, detail="form", robust=not form.startswith("?"))
             elif op == "*":
                 ok = form == "SUM(child, child)"
+                if not ok and form == "MAX(child, child)" and any(("> 0" in src(t_) or ">0" in src(t_) or "min(" in src(t_)) for t_, _p in s.guards):
+                    # max(l, r) equals l + r when one factor has degree 0: whether the guards on this path establish that
+                    # (`min(l, r) > 0` vetoed earlier, `not (l > 0 and r > 0)`) is arithmetic this rule does not do
+                    rep.undecided(f"{construct}: answers max(deg a, deg b) for a product under `{src(s.guards[-1][0])[:50]}`; whether one factor is then known to be constant is not decided")
+                    continue
                 rep.ob("R04.1", construct, ok, "deg(a * b) = deg a + deg b" if ok else f"answers {form}; the degree of a product is deg a + deg b", loc=loc, detail="form", robust=not form.startswith("?"))
             elif op == "/":
                 ok = form == "CHILD" and implied(s.pf, P_CONST_RIGHT, True) and _child_is(s.value, "left", env)
